@@ -28,6 +28,8 @@ type Profile struct {
 	MaxOpen      int            `json:"maxOpen"`
 	Twin         string         `json:"twin"`         // "" | "reset" | "load"
 	WeightsB     map[string]int `json:"weightsAfter"` // weights once a "load" twin exists
+	GCEvery      int            `json:"gcEvery"`
+	TrackPay     bool           `json:"trackPayloads"`
 	Generic      bool           `json:"generic"`      // drive the generic API (static component types at ids 0..12)
 	RandListener bool           `json:"randListener"` // random subscription masks / component restrictions
 	DispatchPct  int            `json:"dispatchPct"`  // share of worlds with a listener.Dispatch
@@ -364,6 +366,11 @@ func (g *generator) next() Op {
 				if g.pct(50) {
 					api = "BuilderWith.New"
 				}
+				for _, c := range g.x.compNums {
+					if _, static := ptrStaticByNum[c]; static && g.x.comps[c].kind == "ptr" && g.pct(40) && !faulty {
+						return Op{Op: "NewEntityWith", Api: "NonEscaping", Ids: []int{c}, Vals: g.vals([]int{c})}
+					}
+				}
 				return Op{Op: "NewEntityWith", Api: api, Ids: ids, Vals: g.vals(ids)}
 			default:
 				op := Op{Op: "BuilderNew", Api: "Builder.New", Ids: ids, Rel: -1, Tgt: -1}
@@ -497,6 +504,12 @@ func (g *generator) next() Op {
 					continue
 				}
 				op := Op{Op: "Assign", Api: "World.Assign", E: ref, Ids: add, Vals: g.vals(add), Tgt: -1}
+				if len(add) == 1 && g.x.comps[add[0]] != nil && g.x.comps[add[0]].kind == "ptr" && g.pct(50) {
+					if _, static := ptrStaticByNum[add[0]]; static {
+						op.Api = "NonEscaping"
+						return op
+					}
+				}
 				if g.pct(40) {
 					op.Api = "BuilderWith.Add"
 					if r := g.relOf(add); r >= 0 && g.pct(80) {
@@ -567,6 +580,9 @@ func (g *generator) next() Op {
 			api := "World.Set"
 			if g.pct(50) {
 				api = "Get"
+			}
+			if _, static := ptrStaticByNum[c]; static && g.x.comps[c].kind == "ptr" && g.pct(40) {
+				api = "NonEscaping"
 			}
 			return Op{Op: "Set", Api: api, E: ref, C: c, V: g.vals([]int{c})[0]}
 		case "setrel":
@@ -1105,6 +1121,8 @@ func (g *generator) next() Op {
 				}
 			}
 			return Op{Op: "AddListener", L: l}
+		case "gccheck":
+			return Op{Op: "GCCheck"}
 		case "dump":
 			return Op{Op: "Dump"}
 		case "load":
